@@ -4,11 +4,16 @@ package c17
 //
 // System under test: the real l1.Client (Run -> ensureChainID -> catchUpL1HeadUpdates -> watchL1StateUpdates ->
 // receiveL1StateUpdates / applyStateUpdate / setL1Head) on a real blockchain.Blockchain over an in-memory DB.
-// Environment: a scripted l1.L1StateProvider whose every call parks on an in-bubble channel (testing/synctest), so
-// each provider call, each subscription item, each subscription error and each timer expiry is an *event the
-// explorer chooses*. The search is explicit-state BFS over all event sequences; a successor is computed by
-// replaying the whole path from scratch in a fresh bubble plus one event; states are merged by a canonical key
-// (harness/model world + reflected nonFinalisedLogs + stored head + client mode + timer phase).
+// Environment: a scripted, purely REACTIVE l1.L1StateProvider: every call parks on an in-bubble channel
+// (testing/synctest) and is answered, whatever its kind and whenever it comes, from the scripted L1 chain as it is at
+// the moment of the answer - the harness does not know or predict the order in which the client talks to its provider
+// (subscribe-then-scan and scan-then-subscribe are both just sequences of parked calls). What the client is doing is
+// OBSERVED through the provider surface only: parked calls, items taken from the update channel, Subscription.Err()
+// being asked for (= the client waits in its select). Each provider call, each block mined between the start-up calls,
+// each subscription item, each subscription error and each timer expiry is an *event the explorer chooses*. The search
+// is explicit-state BFS over all event sequences; a successor is computed by replaying the whole path from scratch in a
+// fresh bubble plus one event; states are merged by a canonical key (harness/model world + reflected nonFinalisedLogs +
+// stored head + observed client mode + timer phase).
 //
 // The L1 "script" is generated online (one more item is one more explorer choice), which is the same set of runs
 // as "for every script, every interleaving", but shares prefixes. The well-behavedness assumptions of the property
@@ -50,6 +55,32 @@ import (
 	"github.com/ethereum/go-ethereum/core/types"
 )
 
+// mineMax bounds the number of blocks mined while the client is between its start-up calls (quick 2, thorough 3).
+var mineMax = func() int {
+	n := 2
+	if os.Getenv("VERIF_TIER") == "thorough" {
+		n = 3
+	}
+	if s := os.Getenv("VERIF_C17_MINE"); s != "" {
+		fmt.Sscan(s, &n)
+	}
+	return n
+}()
+
+var thorough = os.Getenv("VERIF_TIER") == "thorough"
+
+// mineWindowMax: how many of them may be mined while no subscription is open (quick 1, thorough 2).
+var mineWindowMax = func() int {
+	n := 1
+	if os.Getenv("VERIF_TIER") == "thorough" {
+		n = 2
+	}
+	if s := os.Getenv("VERIF_C17_MINEWIN"); s != "" {
+		fmt.Sscan(s, &n)
+	}
+	return n
+}()
+
 const (
 	pollInterval = 10 * time.Second
 	resubDelay   = 5 * time.Second
@@ -61,7 +92,9 @@ const (
 
 type evt struct {
 	K byte   // 'o' ok, 'x' fail, 'L' latest ok(+delta), 'F' finalised ok(value), 'a' advance time to next timer,
-	A uint64 // 'U' deliver update(d), 'R' deliver removal(l1 block), 'E' subscription error
+	A uint64 // 'U' deliver update(d), 'R' deliver removal(l1 block), 'E' subscription error,
+	//          'M' a block with a state update (d) is mined while the client is between its start-up calls,
+	//          'P' the live stream hands over the oldest mined-but-not-yet-pushed log
 }
 
 func (e evt) String() string {
@@ -82,20 +115,23 @@ func (e evt) String() string {
 		return fmt.Sprintf("removal(l1=%d)", e.A)
 	case 'E':
 		return "sub-error"
+	case 'M':
+		return fmt.Sprintf("mine(+%d)", e.A)
+	case 'P':
+		return "push-next"
 	}
 	return "?"
 }
 
 type config struct {
-	hist   []uint8 // L1-block increments of the logs already on chain when the client starts
-	chunk  uint64
-	ldelta uint64 // LatestHeight answer = highest history log block + ldelta
-	prior  int    // index of the history log a previous run stored as L1 head, or -1
-	n      int    // total number of script items (history logs + live items)
+	hist  []uint8 // L1-block increments of the logs already on chain when the client starts
+	chunk uint64
+	prior int // index of the history log a previous run stored as L1 head, or -1
+	n     int // total number of script items (history logs + logs mined during start-up + live items)
 }
 
 func (c *config) String() string {
-	return fmt.Sprintf("hist=%v chunk=%d latest=top+%d prior=%d", c.hist, c.chunk, c.ldelta, c.prior)
+	return fmt.Sprintf("hist=%v chunk=%d prior=%d", c.hist, c.chunk, c.prior)
 }
 
 // ---------------------------------------------------------------------------------------------------------------
@@ -115,13 +151,23 @@ type call struct {
 	reply    chan reply
 }
 
+// The provider is purely REACTIVE: it has no idea which call the client will make next. Every call of the
+// L1StateProvider / Subscription surface is stamped with a sequence number (the order in which the client touched the
+// environment); parked calls are answered by kind from the scripted L1 chain as it is at the moment of the answer.
 type prov struct {
 	calls  chan *call
 	closed int
+
+	seq      uint64     // interactions of the client with the environment so far
+	lastCall uint64     // stamp of the latest provider call (incl. the parked Unsubscribe of a failed subscription)
+	lastErr  uint64     // stamp of the latest Subscription.Err() call ...
+	errSub   *scriptSub // ... and the subscription it was made on
 }
 
 func (p *prov) do(ctx context.Context, c *call) reply {
 	c.reply = make(chan reply, 1)
+	p.seq++
+	p.lastCall = p.seq
 	p.calls <- c
 	select {
 	case r := <-c.reply:
@@ -186,6 +232,8 @@ func (s *scriptSub) Unsubscribe() {
 		return
 	}
 	c := &call{kind: 'u', reply: make(chan reply, 1)}
+	s.p.seq++
+	s.p.lastCall = s.p.seq
 	s.p.calls <- c
 	select {
 	case <-c.reply:
@@ -212,25 +260,50 @@ type fwdSub struct {
 	s     *scriptSub
 }
 
-func (f *fwdSub) Err() <-chan error { return f.inner.Err() }
-func (f *fwdSub) Unsubscribe()      { f.s.Unsubscribe(); f.inner.Unsubscribe() }
+// Err is the one thing the environment can see of a client that is not inside a provider call: a Go select evaluates
+// its channel operands every time it is entered, so a client that waits for subscription items / errors asks for the
+// error channel each time it starts to wait. "The latest interaction is an Err() on the current subscription and no
+// call is parked" is how the harness OBSERVES that the client is listening (world.listening) - it does not predict it
+// from the call sequence.
+func (f *fwdSub) Err() <-chan error {
+	p := f.s.p
+	p.seq++
+	p.lastErr, p.errSub = p.seq, f.s
+	return f.inner.Err()
+}
+func (f *fwdSub) Unsubscribe() { f.s.Unsubscribe(); f.inner.Unsubscribe() }
 
 // ---------------------------------------------------------------------------------------------------------------
-// world = generator view of the L1 chain + reference model + harness bookkeeping of the client's mode
+// world = the scripted L1 chain + reference model + what the harness has OBSERVED of the client
+//
+// Nothing in here assumes an order of the client's calls. The L1 chain is a list of logs (each in its L1 block); it can
+// grow at any scheduling point, also while the client is parked in one of its start-up calls. The sources a well-behaved
+// L1 node offers answer from that chain at the moment of the answer:
+//   - FilterStateUpdate(from,to): the canonical (not reorged) logs of blocks from..to;
+//   - LatestHeight: the block of the newest log (+0 | +1 empty block);
+//   - FinalisedHeight: any monotone height (see enabled);
+//   - a subscription delivers exactly the logs of blocks mined after it was opened, in chain order, each some time after
+//     its block was mined (the live stream may lag what eth_getLogs already shows: `backlog`), plus removal notices.
+// So one log may reach the client through the scan, through the live stream, through both, or (mined after the scan's
+// LatestHeight snapshot and before a subscription exists) through neither.
 
 type logRec struct {
 	l1, l2    uint64
-	delivered bool // handed to the client in this run (FilterStateUpdate result or subscription item)
-	alive     bool // not reported as removed
-	consumed  bool // already <= the finalised height of a completed setL1Head (model side)
+	delivered bool // the client HAS it: it was in a FilterStateUpdate result, or the client has taken it from its update channel
+	alive     bool // canonical on the scripted L1 chain (not reorged)
+	noticed   bool // the client has taken a removal notice that covers it from its update channel
+	consumed  bool // already <= the finalised height of a completed FinalisedHeight answer while delivered (model side)
 }
 
 func hashOf(id int) felt.Felt { return felt.FromUint64[felt.Felt](uint64(0x1000 + id)) }
 func rootOf(id int) felt.Felt { return felt.FromUint64[felt.Felt](uint64(0x2000 + id)) }
 
+// pushedItem is a subscription item that sits in the client's update channel and has not been taken out yet.
 type pushedItem struct {
 	removed bool
 	l1      uint64
+	id      int   // the log the item is about
+	kills   []int // removal notice: the logs it reports as reorged
 }
 
 type violation struct {
@@ -245,24 +318,31 @@ type world struct {
 	items int
 	lastU bool
 
+	chainObserved bool  // the client has been shown the chain (LatestHeight / FilterStateUpdate answered, or a subscription opened)
+	mined         int   // logs mined while the client was between its start-up calls
+	lastM         bool  // the previous event was such a block
+	backlog       []int // logs mined since the current subscription was opened that the live stream has not handed over yet
+
 	expHead int   // model: id of the log that must be the recorded head (-1: none)
 	expEmit []int // model: emissions expected during the current step
 
-	// client mode as tracked by the harness
+	// what the harness has observed of the client (never predicted from the call order)
 	pending     *call
-	retry       byte // kind of the call whose failure the client is sleeping on, 0 if none
-	probeNext   bool // next FinalisedHeight call is the catch-up probe, not a setL1Head
-	catchup     bool
+	listen      bool // the client waits for subscription items / errors (see fwdSub.Err)
+	lastFail    byte // kind of the latest call that was answered with an error
+	failedStep  byte // kind of the call answered with an error in the current step
+	retry       byte // the client is neither parked in a call nor listening: it sleeps before repeating call `retry`
+	catchup     bool // start-up: the client has not listened to a subscription yet
 	stepCatchup bool
 	subscribed  bool
 	sink        chan<- *l1.StateUpdate
 	gethCh      chan *contract.StarknetLogStateUpdate // input of the live forwarder of the current subscription
 	sub         *scriptSub
-	t0          time.Time // creation time of the poll ticker
+	t0          time.Time // moment the client first listened = creation time of its poll ticker (cross-checked, see settle)
 	t0set       bool
 	leftSelect  time.Time
-	inExc       bool // the client is away from its main select (handling a tick or a subscription error)
-	excEnding   bool
+	inExc       bool   // the client is away from its main select (handling a tick or a subscription error)
+	stamp       uint64 // provider sequence number when the current step started
 	exited      bool
 	exitErr     string
 
@@ -303,12 +383,13 @@ func (w *world) maxL1() uint64 {
 	return m
 }
 
-func (w *world) addLog(d uint64, delivered bool) int {
+// addLog mines a block (or, d=0, extends the newest one) with the next Starknet state update.
+func (w *world) addLog(d uint64) int {
 	var base, l2 uint64
 	if t := w.topAlive(); t >= 0 {
 		base, l2 = w.view[t].l1, w.view[t].l2
 	}
-	w.view = append(w.view, logRec{l1: base + d, l2: l2 + 1, delivered: delivered, alive: true})
+	w.view = append(w.view, logRec{l1: base + d, l2: l2 + 1, alive: true})
 	w.items++
 	w.lastU = true
 	return len(w.view) - 1
@@ -331,11 +412,14 @@ func (w *world) raw(id int, removed bool) *contract.StarknetLogStateUpdate {
 	}
 }
 
+// healthy: a subscription is open and has not failed.
+func (w *world) healthy() bool { return w.sub != nil && !w.sub.failed && w.gethCh != nil }
+
 // push delivers one subscription item: through the real forwarder while the subscription is healthy; straight into the
 // client's channel once the subscription has failed (the forwarder has ended; see scriptSub.Unsubscribe for what such
 // an item stands for).
 func (w *world) push(id int, removed bool) {
-	if w.gethCh != nil && w.sub != nil && !w.sub.failed {
+	if w.healthy() {
 		w.gethCh <- w.raw(id, removed)
 		w.stats["items_through_real_forwarder"]++
 		return
@@ -343,7 +427,10 @@ func (w *world) push(id int, removed bool) {
 	w.sink <- w.su(id, removed)
 }
 
-// enabled lists the explorer's choices in the current quiescent state.
+// enabled lists the explorer's choices in the current quiescent state: the possible answers to the call that is parked
+// (whatever its kind), or, with no call parked, a timer expiry and - only while the client is observed to listen -
+// subscription items / a subscription error. While the client is between its start-up calls the chain may also grow
+// (chainEvents).
 //
 // Well-behavedness of the L1 node (property quantifier) is encoded HERE and only here:
 //   - finalised heights are monotone (answers >= w.F);
@@ -352,15 +439,17 @@ func (w *world) push(id int, removed bool) {
 //   - a late ("stale") notice for an already-dead log is only enabled while no live log sits at or above it (geth
 //     sends the removed logs of a reorg before the logs of the new branch);
 //   - updates arrive in chain order: a new log is in the block of the highest live log (+0, only directly after an
-//     update = "second update in the same L1 block") or 1..2 blocks above it, with the next Starknet number.
+//     update = "second update in the same L1 block") or 1..2 blocks above it, with the next Starknet number;
+//   - a subscription hands over the logs mined since it was opened in the order they were mined.
 func (w *world) enabled() []evt {
 	if w.exited {
 		return nil
 	}
 	if c := w.pending; c != nil {
+		var out []evt
 		switch c.kind {
 		case 'c', 'g':
-			return []evt{{'o', 0}, {'x', 0}}
+			out = []evt{{'o', 0}, {'x', 0}}
 		case 'w':
 			// While items the client has not read yet sit in the update channel, a failure whose retry sleep would
 			// swallow a poll tick is not offered: on return both the item and the tick would be ready and Go's select
@@ -368,15 +457,16 @@ func (w *world) enabled() []evt {
 			// item and tick are explored as sequential deliveries.
 			if w.unread() > 0 && w.t0set &&
 				int64(w.now().Add(resubDelay).Sub(w.t0)/pollInterval) > int64(w.leftSelect.Sub(w.t0)/pollInterval) {
-				return []evt{{'o', 0}}
+				out = []evt{{'o', 0}}
+			} else {
+				out = []evt{{'o', 0}, {'x', 0}}
 			}
-			return []evt{{'o', 0}, {'x', 0}}
 		case 'u':
-			return append([]evt{{'o', 0}}, w.itemEvents()...)
+			out = append([]evt{{'o', 0}}, w.itemEvents()...)
 		case 'l':
-			return []evt{{'L', 0}, {'L', 1}, {'x', 0}}
+			out = []evt{{'L', 0}, {'L', 1}, {'x', 0}}
 		case 'f':
-			out := []evt{{'x', 0}}
+			out = []evt{{'x', 0}}
 			hi := w.maxL1() + 2*uint64(w.c.n-w.items)
 			if hi < w.F {
 				hi = w.F
@@ -384,14 +474,49 @@ func (w *world) enabled() []evt {
 			for v := w.F; v <= hi; v++ {
 				out = append(out, evt{'F', v})
 			}
-			return out
+		}
+		return append(out, w.chainEvents()...)
+	}
+	if !w.listen {
+		return []evt{{'a', 0}} // asleep before a retry
+	}
+	// listening in the main select with a live subscription
+	out := []evt{{'a', 0}, {'E', 0}}
+	if len(w.backlog) > 0 {
+		return append(out, evt{'P', 0}) // the stream is in chain order: what was mined first comes first
+	}
+	return append(out, w.itemEvents()...)
+}
+
+// chainEvents: what the L1 chain / the live stream may do while the client is parked in one of its START-UP calls
+// (from the moment it has been shown the chain - blocks mined earlier than that are the start-up history, hist - until
+// it first listens to a subscription): a block with the next state update is mined ('M'; with a healthy subscription
+// it joins the stream's backlog), the stream hands over its oldest backlog entry ('P'). At most mineMax blocks per run.
+// Reorgs and subscription failures are not scripted during start-up (r.Assume).
+func (w *world) chainEvents() []evt {
+	if !w.catchup || !w.chainObserved || w.pending == nil || w.pending.kind == 'u' {
+		return nil
+	}
+	var out []evt
+	lim := mineMax
+	if !w.healthy() {
+		lim = mineWindowMax // nobody will ever show these logs to the client
+	}
+	if w.items < w.c.n && w.mined < lim {
+		// +0 = the block just mined carries a second state update (only directly after an 'M': once anything else has
+		// happened the block is sealed - it may already have been reported as latest, scanned or finalised)
+		if t := w.topAlive(); w.lastM && t >= 0 && t == len(w.view)-1 {
+			out = append(out, evt{'M', 0})
+		}
+		out = append(out, evt{'M', 1})
+		if w.healthy() || thorough {
+			out = append(out, evt{'M', 2}) // quick: a block no source will show is always the next one (only the numbering differs)
 		}
 	}
-	if w.retry != 0 {
-		return []evt{{'a', 0}}
+	if w.healthy() && len(w.backlog) > 0 {
+		out = append(out, evt{'P', 0})
 	}
-	// idle in the main select with a live subscription
-	return append([]evt{{'a', 0}, {'E', 0}}, w.itemEvents()...)
+	return out
 }
 
 func (w *world) unread() int {
@@ -468,9 +593,6 @@ func (w *world) observe() {
 		}
 	default:
 	}
-	if w.pending != nil && w.pending.kind == 'w' {
-		w.catchup = false
-	}
 }
 
 func (w *world) answer(r reply) {
@@ -483,91 +605,80 @@ var errScripted = errors.New("scripted failure")
 // apply performs one explorer-chosen event (model side effects first, then the real interaction).
 func (w *world) apply(e evt) {
 	w.expEmit = nil
-	w.excEnding = false
+	w.failedStep = 0
+	w.lastM = e.K == 'M'
 	w.stepCatchup = w.catchup
+	w.stamp = w.p.seq
 	c := w.pending
 	switch e.K {
 	case 'x':
 		kind := c.kind
 		w.answer(reply{err: errScripted})
-		switch kind {
-		case 'c', 'w':
-			w.retry = kind
-		case 'f':
-			if w.probeNext {
-				w.probeNext = false // catch-up aborted, no retry
-				w.stats["catchup_aborted"]++
-			} else {
-				w.retry = kind
-			}
-		case 'l', 'g':
-			w.stats["catchup_aborted"]++
-		}
+		w.lastFail, w.failedStep = kind, kind
 	case 'o':
 		switch c.kind {
 		case 'c', 'u':
 			w.answer(reply{})
 		case 'g':
+			// eth_getLogs: the canonical logs of the range as the chain is now
 			var evs []*l1.StateUpdate
 			for i := range w.view {
 				r := &w.view[i]
 				if r.alive && r.l1 >= c.from && r.l1 <= c.to {
+					if w.inStream(i) {
+						w.stats["logs_in_scan_result_and_in_live_stream"]++
+					}
 					r.delivered = true
 					evs = append(evs, l1.VerifStateUpdateFromGethContract(w.raw(i, false)))
 				}
 			}
+			w.chainObserved = true
 			w.stats["filter_calls"]++
 			w.answer(reply{evs: evs})
 		case 'w':
+			// a subscription opened now delivers the logs of blocks mined from now on
 			w.sub = &scriptSub{errCh: make(chan error, 1), p: w.p, quit: w.quit}
 			w.sink = c.sink
 			w.gethCh = make(chan *contract.StarknetLogStateUpdate)
+			w.backlog = nil
 			fwd := &fwdSub{l1.VerifForwardStateUpdates(gethSide{w.sub.errCh}, w.gethCh, c.sink), w.sub}
 			w.subscribed = true
-			if !w.t0set {
-				w.t0set, w.t0 = true, w.now() // receiveL1StateUpdates creates the ticker right after this returns
-			} else {
-				w.excEnding = true
-			}
+			w.chainObserved = true
 			w.answer(reply{sub: fwd})
 		}
 	case 'L':
-		w.probeNext = true
+		w.chainObserved = true
 		w.answer(reply{v: w.maxL1() + e.A})
 	case 'F':
 		if e.A < w.F {
 			w.infra = "non-monotone finalised height chosen"
 		}
 		w.F = e.A
-		if w.probeNext {
-			w.probeNext = false
-		} else {
-			// a setL1Head completes with this height: the model moves
-			best := -1
-			for i := range w.view {
-				r := &w.view[i]
-				if r.delivered && r.alive && r.l1 <= w.F && !r.consumed {
-					r.consumed = true
-					if best < 0 || r.l1 >= w.view[best].l1 {
-						best = i
-					}
+		// Whatever the client wanted this height for: from now on the L1 node has reported w.F as finalised, so every
+		// event the client holds (delivered, no removal notice read) at or below it counts. The recorded head must be the
+		// highest of them - and must never step back to an event below the one already recorded.
+		best := -1
+		for i := range w.view {
+			r := &w.view[i]
+			if r.delivered && !r.noticed && r.l1 <= w.F && !r.consumed {
+				r.consumed = true
+				if best < 0 || r.l1 >= w.view[best].l1 {
+					best = i
 				}
 			}
-			if best >= 0 {
-				if w.expHead >= 0 && w.view[w.expHead].l1 > w.view[best].l1 {
-					w.infra = "generator delivered a log below the current head (out of chain order)"
-				}
+		}
+		if best >= 0 {
+			if w.expHead >= 0 && (w.view[w.expHead].l1 > w.view[best].l1 || (w.view[w.expHead].l1 == w.view[best].l1 && w.expHead > best)) {
+				// an older event that reached the client only after a newer one had been finalised and recorded
+				w.stats["late_older_event_must_not_move_head"]++
+			} else {
 				w.expHead = best
 				w.expEmit = []int{best}
-			}
-			if w.t0set {
-				w.excEnding = true
 			}
 		}
 		w.answer(reply{v: e.A})
 	case 'a':
-		wasIdle := w.retry == 0
-		w.retry = 0
+		wasListening := w.listen
 		for i := 0; i < 3 && w.pending == nil && !w.exited; i++ {
 			time.Sleep(quantum)
 			synctest.Wait()
@@ -576,20 +687,40 @@ func (w *world) apply(e evt) {
 		if w.pending == nil {
 			w.infra = "advance produced no provider call"
 		}
-		if wasIdle {
+		if wasListening {
 			w.inExc, w.leftSelect = true, w.now()
 			w.stats["poll_ticks"]++
 		}
 	case 'U':
-		id := w.addLog(e.A, true)
+		id := w.addLog(e.A)
 		if w.pending != nil {
 			w.stats["items_pushed_during_error_handling"]++
 		}
-		w.pushed = append(w.pushed, pushedItem{false, w.view[id].l1})
+		w.pushed = append(w.pushed, pushedItem{false, w.view[id].l1, id, nil})
+		w.push(id, false)
+	case 'M':
+		id := w.addLog(e.A)
+		w.lastU = false // a live 'U' never extends a block mined during start-up
+		w.mined++
+		w.stats["blocks_mined_between_startup_calls"]++
+		if w.healthy() {
+			w.backlog = append(w.backlog, id)
+		}
+	case 'P':
+		id := w.backlog[0]
+		w.backlog = append([]int(nil), w.backlog[1:]...)
+		if w.view[id].delivered {
+			w.stats["live_items_already_seen_in_scan"]++
+		}
+		if w.pending != nil {
+			w.stats["items_pushed_between_startup_calls"]++
+		}
+		w.pushed = append(w.pushed, pushedItem{false, w.view[id].l1, id, nil})
 		w.push(id, false)
 	case 'R':
 		x := e.A
 		target, killed := -1, 0
+		var kills []int
 		for i := range w.view {
 			r := &w.view[i]
 			if r.l1 == x && (target < 0 || r.alive) {
@@ -600,7 +731,8 @@ func (w *world) apply(e evt) {
 					w.infra = "generator removed a finalised log"
 				}
 				r.alive = false
-				if r.delivered && !r.consumed {
+				kills = append(kills, i)
+				if (r.delivered || w.inPushed(i)) && !r.consumed {
 					killed++
 				}
 			}
@@ -618,38 +750,93 @@ func (w *world) apply(e evt) {
 		default:
 			w.stats["removals_multi"]++
 		}
-		w.pushed = append(w.pushed, pushedItem{true, x})
+		w.pushed = append(w.pushed, pushedItem{true, x, target, kills})
 		w.push(target, true)
 	case 'E':
 		w.subscribed = false
 		w.inExc, w.leftSelect = true, w.now()
 		w.sub.failed = true
+		w.backlog = nil // what the stream had not handed over yet is never delivered live
 		w.sub.errCh <- errScripted
 		w.stats["sub_errors"]++
 	}
 }
 
-// settle runs the client to quiescence after an event and closes harness-side excursion bookkeeping.
+func (w *world) inPushed(id int) bool {
+	for _, it := range w.pushed {
+		if !it.removed && it.id == id {
+			return true
+		}
+	}
+	return false
+}
+
+// inStream: the live stream of the current subscription has handed the log over or still will.
+func (w *world) inStream(id int) bool {
+	if w.inPushed(id) {
+		return true
+	}
+	for _, b := range w.backlog {
+		if b == id {
+			return true
+		}
+	}
+	return false
+}
+
+// settle runs the client to quiescence after an event and records what the environment can observe of it: which
+// items it took from its channel, whether it now listens, whether it passed through its waiting select.
 func (w *world) settle() {
-	predicted := w.excEnding && w.tickBuffered()
+	predicted := w.tickBuffered()
 	synctest.Wait()
 	w.observe()
 	if n := w.unread(); n < len(w.pushed) {
-		w.pushed = w.pushed[len(w.pushed)-n:]
-	}
-	if w.excEnding {
-		if w.pending != nil && w.pending.kind == 'f' {
-			if !predicted {
-				w.infra = "tick consumed although none was predicted to be buffered"
+		k := len(w.pushed) - n
+		for _, it := range w.pushed[:k] {
+			if it.removed {
+				for _, id := range it.kills {
+					w.view[id].noticed = true
+				}
+			} else {
+				w.view[it.id].delivered = true
 			}
-			w.leftSelect = w.now() // the buffered tick started a new setL1Head straight away
-			w.stats["buffered_ticks"]++
-		} else {
-			if predicted {
-				w.infra = "buffered tick predicted but the client went idle"
-			}
-			w.inExc = false
 		}
+		w.pushed = w.pushed[k:]
+	}
+	w.listen = w.pending == nil && !w.exited && w.sub != nil && w.p.errSub == w.sub && w.p.lastErr > w.p.lastCall
+	passed := w.p.lastErr > w.stamp // the client (re-)entered its waiting select during this step
+	switch {
+	case w.listen && !w.t0set:
+		// end of start-up. The client's poll ticker is taken to start now; every later tick is checked against that
+		// (the two infra errors below), so a client that arms it elsewhere is noticed instead of mis-scheduled.
+		w.t0set, w.t0, w.catchup, w.inExc = true, w.now(), false, false
+		for i := range w.view {
+			if r := &w.view[i]; r.alive && !r.delivered && !w.inStream(i) && i >= len(w.c.hist) {
+				w.stats["startup_logs_seen_by_neither_scan_nor_stream"]++
+			}
+		}
+	case w.inExc && passed && w.listen:
+		if predicted {
+			w.infra = "buffered tick predicted but the client went idle"
+		}
+		w.inExc = false
+	case w.inExc && passed && w.pending != nil:
+		// back in the select and out again at once: a tick that expired during the excursion
+		if !predicted || w.pending.kind != 'f' {
+			w.infra = "tick consumed although none was predicted to be buffered"
+		}
+		w.leftSelect = w.now()
+		w.stats["buffered_ticks"]++
+	}
+	w.retry = 0
+	if w.pending == nil && !w.listen && !w.exited {
+		w.retry = w.lastFail
+		if w.retry == 0 {
+			w.retry = '?'
+		}
+	}
+	if w.failedStep != 0 && w.retry == 0 && (w.pending == nil || w.pending.kind != w.failedStep) {
+		w.stats["catchup_aborted"]++ // a failed call the client did not repeat
 	}
 }
 
@@ -802,14 +989,14 @@ func (w *world) bufferStrings() []string {
 func (w *world) fullKey() string {
 	var b strings.Builder
 	if w.catchup {
-		// chunking parameters only matter until the live subscription starts
-		fmt.Fprintf(&b, "C%d.%d.%d|", w.c.chunk, w.c.ldelta, w.c.prior)
+		// chunking parameters only matter until the client has left its start-up
+		fmt.Fprintf(&b, "C%d.%d|", w.c.chunk, w.c.prior)
 	}
 	fmt.Fprintf(&b, "i%d F%d u%v|", w.c.n-w.items, w.F, w.lastU)
 	for _, r := range w.view {
-		fmt.Fprintf(&b, "%d:%v%v%v,", r.l1, r.delivered, r.alive, r.consumed)
+		fmt.Fprintf(&b, "%d:%v%v%v%v,", r.l1, r.delivered, r.alive, r.consumed, r.noticed)
 	}
-	fmt.Fprintf(&b, "|h%d s%d|", w.expHead, w.storedID)
+	fmt.Fprintf(&b, "|h%d s%d k%v|", w.expHead, w.storedID, w.backlog)
 	b.WriteString(w.modeKey())
 	for _, it := range w.pushed {
 		fmt.Fprintf(&b, "u%v%d,", it.removed, it.l1)
@@ -823,7 +1010,11 @@ func (w *world) modeKey() string {
 	if w.pending != nil {
 		fmt.Fprintf(&b, "p%c%d-%d", w.pending.kind, w.pending.from, w.pending.to)
 	}
-	fmt.Fprintf(&b, "r%d q%v c%v s%v x%v%s n%d|", w.retry, w.probeNext, w.catchup, w.subscribed, w.exited, w.exitErr, w.unread())
+	fmt.Fprintf(&b, "r%d c%v s%v x%v%s n%d k%d|", w.retry, w.catchup, w.subscribed, w.exited, w.exitErr, w.unread(), len(w.backlog))
+	if w.catchup {
+		// what decides whether the chain may still grow between the start-up calls
+		fmt.Fprintf(&b, "q%v m%d%v h%v|", w.chainObserved, w.mined, w.lastM, w.healthy())
+	}
 	if w.t0set {
 		fmt.Fprintf(&b, "t%d e%v b%v|", int64(w.now().Sub(w.t0)%pollInterval/quantum), w.inExc, w.tickBuffered())
 	}
@@ -878,12 +1069,26 @@ func (w *world) canonKey() (string, int64) {
 	pos := map[int]int{}
 	for i := range w.view {
 		r := &w.view[i]
-		if r.alive && (r.l1 > w.F || (r.delivered && !r.consumed) || i == t || i == floor) {
+		// on its way to the client: still in the stream's backlog ('b') or unread in the client's channel ('q')
+		way := byte(0)
+		if !r.delivered {
+			switch {
+			case w.inPushed(i):
+				way = 'q'
+			case w.inStream(i):
+				way = 'b'
+			}
+		}
+		if r.alive && (r.l1 > w.F || (r.delivered && !r.consumed) || i == t || i == floor || way != 0) {
 			pos[i] = len(pos)
 			// status: above the finalised height only "delivered or not" matters; at or below it only "still to be
 			// counted by the next setL1Head" (delivered, not consumed) vs inert (consumed, or never delivered)
 			st := 'i'
 			switch {
+			case way != 0 && r.l1 > w.F:
+				st = rune(way)
+			case way != 0:
+				st = rune(way - 'a' + 'A')
 			case r.l1 > w.F && r.delivered:
 				st = 'd'
 			case r.l1 > w.F:
@@ -966,7 +1171,7 @@ func replay(t *testing.T, c *config, path []evt) (res result) {
 	synctest.Test(t, func(t *testing.T) {
 		w := &world{c: c, expHead: -1, storedID: -1, catchup: true, stepCatchup: true, stats: map[string]int64{}}
 		for _, d := range c.hist {
-			w.addLog(uint64(d), false)
+			w.addLog(uint64(d))
 		}
 		w.chain = blockchain.New(memory.New(), &networks.Mainnet)
 		if c.prior >= 0 {
@@ -1073,10 +1278,8 @@ func roots(n int, chunks []uint64) []*config {
 	var rec func(h []uint8)
 	rec = func(h []uint8) {
 		for _, ch := range chunks {
-			for ld := uint64(0); ld <= 1; ld++ {
-				for prior := -1; prior < len(h); prior++ {
-					out = append(out, &config{hist: append([]uint8(nil), h...), chunk: ch, ldelta: ld, prior: prior, n: n})
-				}
+			for prior := -1; prior < len(h); prior++ {
+				out = append(out, &config{hist: append([]uint8(nil), h...), chunk: ch, prior: prior, n: n})
 			}
 		}
 		if len(h) == n {
@@ -1141,7 +1344,14 @@ func explore(t *testing.T, r *ev.Run, pl *pool, n int, mergeFull, report bool) e
 					continue
 				}
 				if res.infra != "" {
-					r.Infra("%s at %s path=%v", res.infra, cfgs[frontier[i].root], pathStrings(frontier[i].path))
+					msg := fmt.Sprintf("%s at %s path=%v", res.infra, cfgs[frontier[i].root], pathStrings(frontier[i].path))
+					if r.Violations() > 0 {
+						// a verdict exists already; a harness inconsistency further down must not replace it
+						r.Incomplete("search stopped at a harness inconsistency after a violation had been found: " + msg)
+						stop = true
+						continue
+					}
+					r.Infra("%s", msg)
 				}
 				ex.transitions++
 				if report {
@@ -1168,6 +1378,8 @@ func explore(t *testing.T, r *ev.Run, pl *pool, n int, mergeFull, report bool) e
 					switch {
 					case res.stats["buffered_ticks"] > 0 && strings.Contains(ps, "sub-error") && strings.Contains(ps, "update"):
 						cat = "resubscribe-sleep-swallows-poll-tick"
+					case moved && strings.Contains(ps, "mine("):
+						cat = "block-mined-between-startup-calls"
 					case moved && strings.Contains(ps, "removal"):
 						cat = "reorg"
 					case moved && strings.HasPrefix(res.label, "catchup") && cfgs[frontier[i].root].chunk == 1 && cfgs[frontier[i].root].prior >= 0:
@@ -1191,8 +1403,14 @@ func explore(t *testing.T, r *ev.Run, pl *pool, n int, mergeFull, report bool) e
 				}
 				if sig, ok := visited[mk]; ok {
 					if sig != res.ensig {
-						r.Infra("state key is not canonical: same key, different enabled events; second arrival %s path=%v",
+						msg := fmt.Sprintf("state key is not canonical: same key, different enabled events; second arrival %s path=%v",
 							cfgs[frontier[i].root], pathStrings(frontier[i].path))
+						if r.Violations() > 0 {
+							r.Incomplete("search stopped at a harness inconsistency after a violation had been found: " + msg)
+							stop = true
+							continue
+						}
+						r.Infra("%s", msg)
 					}
 					continue
 				}
@@ -1239,14 +1457,21 @@ func TestCheck(t *testing.T) {
 		fmt.Sscan(s, &n)
 	}
 	r.Set("script_items_max", int64(n))
+	r.Set("startup_mined_blocks_max", int64(mineMax))
+	r.Set("startup_mined_blocks_without_subscription_max", int64(mineWindowMax))
 	r.Set("rule", "explicit-state BFS; every enabled event of every reachable quiescent state of the real l1.Client is executed "+
 		"(replay of the path from scratch in a fresh synctest bubble + that event); states merged by canonical key")
 	r.Assume = append(r.Assume,
 		"L1 node well-behaved (generator restriction only): finalised height monotone; removal notices only for blocks above every "+
 			"reported finalised height and meaning 'this block and everything above it was reorged'; late notices for dead logs only "+
 			"before new-branch logs at/above them; logs arrive in chain order with increasing Starknet numbers",
-		"the L1 chain does not change while the start-up catch-up scan runs; provider calls fail by returning an error (deadline "+
-			"expiry of a parked call is not scripted); ChainID mismatch (fatal exit) is out of scope",
+		fmt.Sprintf("while the client is between its start-up calls (from the first answer that shows it the chain until it first listens to "+
+			"a subscription) at most %d blocks with a state update are mined (at most %d of them, always the next block, while no "+
+			"subscription is open), a subscription delivers the logs mined since it was opened in order but possibly later than "+
+			"eth_getLogs shows them; reorgs and subscription failures during start-up are not scripted; provider calls fail by "+
+			"returning an error (deadline expiry of a parked call is not scripted); ChainID mismatch (fatal exit) is out of scope", mineMax, mineWindowMax),
+		"the poll ticker is taken to start when the client is first observed listening to a subscription; every later tick is checked "+
+			"against that (a contradiction is an INFRA-ERROR, not a verdict)",
 		"scheduler granularity = provider calls (incl. Unsubscribe of a failed subscription), subscription items/errors and timer "+
 			"expiries (quiescence points of the bubble); two cases of the client's main select are never made ready together (Go's "+
 			"pick would be an uncontrollable coin flip): item-vs-error races are reached through the equivalent 'item pushed while the "+
@@ -1254,7 +1479,7 @@ func TestCheck(t *testing.T) {
 			"sequential orders; "+
 			"finalised-height answers range over every integer between the last answer and the highest L1 block any remaining item could use",
 		fmt.Sprintf("poll interval %s, resubscribe delay %s (so a retry sleep may or may not swallow a poll tick); chunk sizes 1,2,1000; "+
-			"LatestHeight = highest log block + {0,1}; previous-run head = none or any history log", pollInterval, resubDelay))
+			"LatestHeight = highest log block at the time of the call + {0,1}; previous-run head = none or any history log", pollInterval, resubDelay))
 
 	// self-check of the state projection at a smaller bound: same canonical classes whichever key the search merges on
 	sn := ev.Pick(r, 4, 5)
